@@ -168,8 +168,9 @@ func (sc *Scanner) scanNumber(ch int, buf *bytes.Buffer) error {
 			ch = sc.Next()
 		}
 	}
+	leadingDot := ch == '.' // ".5": the digits that follow are already the fraction
 	sc.scanDecimal(ch, buf)
-	if sc.Peek() == '.' {
+	if !leadingDot && sc.Peek() == '.' {
 		sc.scanDecimal(sc.Next(), buf)
 	}
 	if ch = sc.Peek(); ch == 'e' || ch == 'E' {
